@@ -94,9 +94,10 @@ def _index(tok, n):
             return 0
         raise PointerError("index 0 into an empty array")
     if tok and tok[0] in "123456789" and all(c in "0123456789" for c in tok):
-        i = int(tok)
-        if i < n:
-            return i
+        # a canonical index longer than 18 digits is past the end of any array that fits in memory
+        # (and int() refuses digit strings beyond the interpreter's conversion limit)
+        if len(tok) <= 18 and int(tok) < n:
+            return int(tok)
     raise PointerError("not an index into an array of %d: %r" % (n, tok))
 
 
